@@ -39,12 +39,24 @@ def same(a, b):
         return True
     return bool(EQ(a, b)) and bool(EQ(b, a))
 def strip_loc(x):
-    """drop the line/col keys the reader itself attaches (they describe the text, not the value)"""
+    """drop, recursively, the line/col keys the reader itself attaches (they describe the text, not the value)"""
+    if isinstance(x, vec.PersistentVector):
+        y = vec.vector([strip_loc(e) for e in x])
+    elif isinstance(x, lqueue.PersistentQueue):
+        y = lqueue.queue([strip_loc(e) for e in x])
+    elif isinstance(x, llist.PersistentList):
+        y = llist.list([strip_loc(e) for e in x])
+    elif isinstance(x, lmap.PersistentMap):
+        y = lmap.map({strip_loc(k): strip_loc(v) for k, v in x.items()})
+    elif isinstance(x, lset.PersistentSet):
+        y = lset.set([strip_loc(e) for e in x])
+    else:
+        y = x
     m = getattr(x, "meta", None)
-    if m is not None and hasattr(x, "with_meta"):
-        keep = {k: v for k, v in m.items() if not (isinstance(k, kw.Keyword) and k.ns == "basilisp.lang.reader")}
-        x = x.with_meta(lmap.map(keep) if keep else None)
-    return x
+    if hasattr(y, "with_meta"):
+        keep = {k: v for k, v in (m.items() if m is not None else []) if not (isinstance(k, kw.Keyword) and k.ns == "basilisp.lang.reader")}
+        y = y.with_meta(lmap.map(keep) if keep else None)
+    return y
 def roundtrip(v, dup=False, meta=False, nsmaps=False, reprint=True):
     text = PR(v, dup, meta, nsmaps)
     forms = read_all(text)
@@ -138,11 +150,15 @@ def specs(quick, timeout):
     add("collection/py-dict-2/reprint-same-text", f"x: {T}, i0: int", ["0 <= i0 < 3"], "    return {9: x, 2: [0, -1, 42][i0]}",
         prop_body="    return roundtrip(build(x, i0))", bound="two-key #py dict: re-printing the re-read value gives the same text", kind="py-dict-key-order")
     # metadata under *print-meta*
-    add("meta/vector-symbol", f"x: {T}, i0: int", ["0 <= i0 < 2"],
-        "    m = lmap.map({kw.keyword('tag'): x})\n    return [vec.vector([1]).with_meta(m), sym.symbol('s').with_meta(m)][i0]",
+    add("meta/every-collection-type", f"x: {T}, i0: int", ["0 <= i0 < 8"],
+        "    m = lmap.map({kw.keyword('tag'): x})\n    return [vec.vector([1]).with_meta(m), sym.symbol('s').with_meta(m), llist.list([1, 2]).with_meta(m),"
+        " lmap.map({kw.keyword('k'): 1}).with_meta(m), lset.set([1]).with_meta(m), lqueue.queue([1, 2]).with_meta(m),"
+        " vec.vector([lqueue.queue([1]).with_meta(m), llist.list([sym.symbol('q').with_meta(m)])]), llist.list([]).with_meta(m)][i0]",
         prop_body="    v = build(x, i0)\n    if not roundtrip(v, meta=True):\n        return False\n"
-                  "    back = read_all(PR(v, False, True, False))[0]\n    return bool(EQ(back.meta.val_at(kw.keyword('tag')), x)) or x is None",
-        bound="metadata {:tag x}", kind="meta")
+                  "    back = read_all(PR(v, False, True, False))[0]\n"
+                  "    inner = back if i0 != 6 else back[0]\n"
+                  "    return inner.meta is not None and (bool(EQ(inner.meta.val_at(kw.keyword('tag')), x)) or x is None) and kw.keyword('tag') in inner.meta",
+        bound="metadata {:tag x} on vector / symbol / list / map / set / queue / nested / empty list", kind="meta")
     # uuid, inst, regex, bytes
     add("tagged/uuid-regex", "i0: int", ["0 <= i0 < 3"],
         "    return [uuid.UUID('12345678-1234-5678-1234-567812345678'), re.compile('a+b*x'), re.compile('')][i0]",
